@@ -12,8 +12,17 @@ package c18
 
 import (
 	"fmt"
+	"io"
 	"math"
 	"math/rand"
+	"strings"
+
+	"github.com/EliCDavis/polyform/formats/obj"
+	"github.com/EliCDavis/polyform/formats/ply"
+	"github.com/EliCDavis/polyform/formats/stl"
+	"github.com/EliCDavis/polyform/math/quaternion"
+	"github.com/EliCDavis/polyform/modeling/meshops"
+	"github.com/EliCDavis/vector/vector3"
 
 	"github.com/EliCDavis/polyform/modeling"
 	"github.com/EliCDavis/polyform/modeling/primitives"
@@ -715,6 +724,66 @@ var equalProducts = func() [][][2]int {
 	return out
 }()
 
+// useMesh passes m (and an earlier mesh of the case) through ordinary mesh operations. Results are
+// discarded; panics of the operations belong to other properties and are only named in the description.
+func useMesh(r *rand.Rand, m modeling.Mesh, earlier *observed) (desc string, vertexOnly bool) {
+	var done []string
+	try := func(name string, f func()) {
+		if p := run.Try(f); p != nil {
+			name += " (panicked)"
+		}
+		done = append(done, name)
+	}
+	ops := r.Perm(7)[:2+r.Intn(2)]
+	if r.Intn(2) == 0 {
+		ops = append(ops, 0)
+	}
+	for _, op := range ops {
+		switch op {
+		case 0:
+			k := 1 + r.Intn(5)
+			verts := make([]vector3.Float64, k)
+			for i := range verts {
+				verts[i] = vector3.New(r.NormFloat64(), r.NormFloat64(), r.NormFloat64())
+			}
+			try(fmt.Sprintf("append-onto-vertex-only-mesh of %d vertices", k), func() {
+				acc := modeling.NewTriangleMesh([]int{}).SetFloat3Data(map[string][]vector3.Float64{modeling.PositionAttribute: verts})
+				_ = acc.Append(m)
+			})
+			vertexOnly = true
+		case 1:
+			try("append-onto-EmptyMesh", func() { _ = modeling.EmptyMesh(modeling.TriangleTopology).Append(m) })
+		case 2:
+			if earlier != nil {
+				try("append-onto-earlier-primitive and earlier-onto-it", func() {
+					_ = earlier.mesh.Append(m)
+					_ = m.Append(earlier.mesh)
+				})
+			} else {
+				try("append-onto-itself", func() { _ = m.Append(m) })
+			}
+		case 3:
+			try("translate-scale-rotate", func() {
+				_ = m.Translate(vector3.New(1., 2., 3.)).Scale(vector3.New(2., 0.5, 3.)).Rotate(quaternion.FromTheta(1.1, vector3.New(0., 1., 0.)))
+			})
+		case 4:
+			try("set-material", func() { _ = m.SetMaterial(modeling.Material{Name: "m"}) })
+		case 5:
+			try("transform-unweld-flip", func() {
+				_ = m.Transform(meshops.UnweldTransformer{}, meshops.FlipTriangleWindingTransformer{})
+			})
+		default:
+			try("write-obj-ply-stl", func() {
+				_ = obj.WriteMesh(m, "", io.Discard)
+				_ = ply.Write(io.Discard, m, ply.ASCII)
+				_ = ply.Write(io.Discard, m, ply.BinaryLittleEndian)
+				_ = stl.WriteMesh(io.Discard, m)
+			})
+		}
+	}
+	return strings.Join(done, ", "), vertexOnly
+}
+
 // sequenceCase makes the CALL ORDER a dimension: 2-4 primitives are built one after the other in one
 // process and every one of them is judged. Patterns: the same kind at two different resolutions with
 // equal (rows-1)*columns (both orders, optionally returning to the first), different kinds interleaved,
@@ -786,6 +855,7 @@ func sequenceCase(c *run.Ctx) run.Result {
 			}
 		}
 	}
+	useAll := pattern != 0 || r.Intn(2) == 0
 	for i, p := range seq {
 		ob := check(c, &res, p)
 		calls = append(calls, p.String())
@@ -794,6 +864,35 @@ func sequenceCase(c *run.Ctx) run.Result {
 			last = ob
 			judged++
 			alive = append(alive, kept{p, ob})
+		}
+		// USE the primitive the way a program does - as argument and receiver of mesh operations and
+		// writers -, then read every mesh of the case again and build the same kind once more: a use must
+		// neither change a mesh that was handed out nor spoil what the constructors hand out afterwards.
+		if ob != nil && useAll {
+			var earlier *observed
+			if len(alive) >= 2 {
+				earlier = alive[r.Intn(len(alive)-1)].ob
+			}
+			used, vertexOnly := useMesh(r, ob.mesh, earlier)
+			calls = append(calls, "use: "+used)
+			for _, u := range strings.Split(used, ", ") {
+				res.SetAdd("uses_between_builds", strings.SplitN(u, " ", 2)[0])
+			}
+			recheck("using it (" + used + ")")
+			again := p
+			if r.Intn(2) == 0 { // same kind and counts, fresh dimensions and UV options
+				again = fill(r, combo{kind: p.Kind, rows: p.Rows, cols: p.Cols, side: p.Sides, uv: []int{uvNone, uvDefault, uvRandom}[r.Intn(3)]})
+			}
+			ob2 := check(c, &res, again)
+			calls = append(calls, again.String())
+			recheck(again.String())
+			if ob2 != nil {
+				alive = append(alive, kept{again, ob2})
+			}
+			res.Count("primitives_built_after_an_earlier_instance_was_used", 1)
+			if vertexOnly {
+				res.Count("primitives_built_after_an_earlier_instance_was_appended_onto_a_vertex_only_mesh", 1)
+			}
 		}
 		if i > 0 {
 			q := seq[i-1]
@@ -824,7 +923,7 @@ func Spec() *run.Spec {
 	return &run.Spec{
 		ID: "C18", Level: "exploration",
 		Rule: "grid: every (kind, rows 2..12 x columns 3..16 | sides 3..24 | cube variant, UV option) combination, each repetition with fresh dimensions drawn over 1e-9..1e9 (common scale with ratios <= 1e3, independent log-uniform dimensions with ratio <= 1e12, named extreme aspect ratios such as 1x1x1e-7 and 1e6x1e-6x1, small integers); " +
-			"large: counts sampled log-uniformly up to 200; sequence: 2-4 constructor calls in one process, each judged and every earlier mesh of the case re-read (fingerprint of positions, normals, indices) after each later call and at the end (equal (rows-1)*columns pairs in both orders, kinds interleaved, identical calls repeated, unrelated resolutions); refine: doubling sequences of one primitive up to a count of 256. A case is non-trivial when the constructor returned a mesh of >= 4 faces " +
+			"large: counts sampled log-uniformly up to 200; sequence: 2-4 constructor calls in one process with USES of the primitives in between (Append onto a vertex-only mesh / EmptyMesh / another primitive and vice versa, translate-scale-rotate, SetMaterial, Transform(unweld, flip), OBJ/PLY/STL writers) followed by a rebuild of the same kind, each build judged and every earlier mesh of the case re-read (fingerprint of positions, normals, indices) after each later call and at the end (equal (rows-1)*columns pairs in both orders, kinds interleaved, identical calls repeated, unrelated resolutions); refine: doubling sequences of one primitive up to a count of 256. A case is non-trivial when the constructor returned a mesh of >= 4 faces " +
 			"(refine: >= 4 steps); distinctness = kind + counts (bucketed by 25 in `large`) + UV option class.",
 		Assumptions: []string{
 			"admissible parameters: radius/height/width/depth > 0, rows >= 2, columns >= 3 (the constructors panic below that), cylinder sides >= 3 (Cylinder accepts 1 and 2 without complaint but a 1- or 2-gon prism is not a solid), NoTop/NoBottom false (capped cylinder)",
@@ -835,7 +934,7 @@ func Spec() *run.Spec {
 		},
 		MinNontrivial: map[string]int{"quick": 750, "thorough": 800},
 		MinObserved: map[string]int64{"kinds": 6, "meshes_with_normals_checked": 300, "refinement_steps": 100, "meshes_with_a_count_of_150_or_more": 5, "uv_options": 10, "uv_masks": 140,
-			"call_sequences": 300, "earlier_meshes_reread_after_a_later_call": 1000, "consecutive_calls_with_equal_rows_minus_1_times_columns": 100, "consecutive_identical_calls": 100, "consecutive_calls_of_different_kinds": 100,
+			"call_sequences": 300, "primitives_built_after_an_earlier_instance_was_used": 500, "primitives_built_after_an_earlier_instance_was_appended_onto_a_vertex_only_mesh": 200, "uses_between_builds": 7, "earlier_meshes_reread_after_a_later_call": 1000, "consecutive_calls_with_equal_rows_minus_1_times_columns": 100, "consecutive_identical_calls": 100, "consecutive_calls_of_different_kinds": 100,
 			"size_decades": 16, "meshes_with_a_dimension_below_2e-6": 200, "meshes_with_a_dimension_above_1e6": 200, "meshes_with_aspect_ratio_of_1e6_or_more": 50},
 		Phases: []run.Phase{
 			{Name: "grid", Cases: func(t string) int {
